@@ -35,6 +35,16 @@ Ltac inv_ret H :=
   end;
   clear H; split_and; subst.
 
+Lemma kind_eqb_eq a b : kind_eqb a b = true -> a = b.
+Proof. destruct a, b; cbn; intro H; try reflexivity; discriminate H. Qed.
+
+(* wrapping clauses turn every failure of the probe into RuntimeError *)
+Lemma wrap_kind h f : handlers_wrap h = true -> ensure_kind h f = RuntimeError.
+Proof.
+  unfold handlers_wrap. rewrite forallb_forall. intro H. apply kind_eqb_eq. apply H.
+  destruct f; cbn; auto 6.
+Qed.
+
 Lemma exec_cons e s r :
   exec_list e (s :: r) =
   match exec_step e s with
@@ -93,7 +103,8 @@ Qed.
 (* ---------------------------------------------------- shape of the first two statements *)
 Lemma shape_head ss :
   shape_ok ss = true ->
-  exists r s2, ss = SValidate VPlatform VBoard :: SEnsurePio GIfUpload :: r /\
+  exists h r s2, ss = SValidate VPlatform VBoard :: SEnsurePio GIfUpload h :: r /\
+               handlers_wrap h = true /\
                check s2 r = true /\ s2 = set_pio (set_validated st0).
 Proof.
   unfold shape_ok. intro H. destruct ss as [|x r]; [discriminate|]. cbn [check] in H.
@@ -103,7 +114,7 @@ Proof.
   destruct r as [|y r]; [discriminate|]. cbn [check] in H.
   destruct (step_ok (set_validated st0) y) as [s2|] eqn:OK2; [|discriminate].
   destruct y; try (inv_ok OK2; cbn in *; congruence).
-  inv_ok OK2. cbn [is_return] in H. eauto.
+  inv_ok OK2. cbn [is_return] in H. eauto 7.
 Qed.
 
 (* ------------------------------------------------------------ C12_validate_first *)
@@ -111,7 +122,7 @@ Lemma validate_first e ss :
   shape_ok ss = true -> validf e VPlatform VBoard = false ->
   target_run e ss = ([], Raised ValueError).
 Proof.
-  intros OK V. destruct (shape_head _ OK) as (r & s2 & -> & _ & _).
+  intros OK V. destruct (shape_head _ OK) as (h & r & s2 & -> & _ & _ & _).
   unfold target_run. cbn. rewrite V. reflexivity.
 Qed.
 
@@ -120,8 +131,8 @@ Lemma missing_pio_with_upload e ss :
   shape_ok ss = true -> validf e VPlatform VBoard = true -> upload e = true -> pio e = false ->
   target_run e ss = ([RunPioVersion], Raised RuntimeError).
 Proof.
-  intros OK V U Pp. destruct (shape_head _ OK) as (r & s2 & -> & _ & _).
-  unfold target_run. cbn. rewrite V, U. cbn. rewrite Pp. reflexivity.
+  intros OK V U Pp. destruct (shape_head _ OK) as (h & r & s2 & -> & W & _ & _).
+  unfold target_run. cbn. rewrite V, U. cbn. rewrite Pp, (wrap_kind h (pio_how e) W). reflexivity.
 Qed.
 
 (* ------------------------------------------------------ events of a list, by parts *)
@@ -205,18 +216,28 @@ Proof.
 Qed.
 
 (* for ANY statement list: a failed build is never followed by an upload *)
-Lemma step_build_fail_no_upload e x ev d :
-  fault e FBuild = true -> In ev (fst (exec_step e x)) -> ev <> RunUpload d.
+Lemma build_fault_cases e k :
+  build_fault e = Some k ->
+  (fault e FBuildExec = true /\ k = OSError) \/
+  (fault e FBuildExec = false /\ fault e FBuild = true /\ k = CalledProcessError).
 Proof.
-  intros FB I. destruct x; cbn in I;
+  unfold build_fault. destruct (fault e FBuildExec); [intros [= <-]; auto|].
+  destruct (fault e FBuild); [intros [= <-]; auto|discriminate].
+Qed.
+
+Lemma step_build_fail_no_upload e x ev d k :
+  build_fault e = Some k -> In ev (fst (exec_step e x)) -> ev <> RunUpload d.
+Proof.
+  intros FB I. apply build_fault_cases in FB as [[F1 _]|(F1 & F2 & _)];
+  destruct x; cbn in I; rewrite ?F1, ?F2 in I;
     repeat match goal with
     | H : context [if ?c then _ else _] |- _ => destruct c eqn:?; cbn in H
     end;
     repeat (destruct I as [<-|I]; [discriminate|]); try contradiction; congruence.
 Qed.
 
-Lemma build_fail_no_upload e ss d :
-  fault e FBuild = true -> ~ In (RunUpload d) (fst (exec_list e ss)).
+Lemma build_fail_no_upload_k e ss d k :
+  build_fault e = Some k -> ~ In (RunUpload d) (fst (exec_list e ss)).
 Proof.
   intros FB. induction ss as [|x r IH]; cbn [exec_list]; [cbn; tauto|].
   intro I. change (In (RunUpload d) (fst (exec_list e (x :: r)))) in I.
@@ -224,39 +245,45 @@ Proof.
   eapply step_build_fail_no_upload; eauto.
 Qed.
 
-Lemma step_build_fail_result e s x s' ev0 o0 d :
-  step_ok s x = Some s' -> hist e s -> fault e FBuild = true ->
-  exec_step e x = (ev0, o0) -> In (RunBuild d) ev0 -> o0 = Some (Raised CalledProcessError).
+Lemma build_fail_no_upload e ss d :
+  build_fault e <> None -> ~ In (RunUpload d) (fst (exec_list e ss)).
 Proof.
-  intros OK (Hv & Hp & Hf) FB EX I.
+  intro FB. destruct (build_fault e) as [k|] eqn:B; [|congruence].
+  eapply build_fail_no_upload_k; eauto.
+Qed.
+
+Lemma step_build_fail_result e s x s' ev0 o0 d k :
+  step_ok s x = Some s' -> build_fault e = Some k ->
+  exec_step e x = (ev0, o0) -> In (RunBuild d) ev0 -> o0 = Some (Raised k).
+Proof.
+  intros OK FB EX I.
   destruct x; inv_ok OK; cbn in EX;
     try (repeat match goal with
          | H : context [if ?c then _ else _] |- _ => destruct c eqn:?; cbn in H
          end; injection EX as <- <-; cbn in I; intuition discriminate).
   (* compile_upload *)
   destruct (upload e) eqn:U; cbn in EX.
-  - match goal with KP : k_pio _ = true |- _ => rewrite (Hp KP eq_refl) in EX end.
-    cbn in EX. rewrite FB in EX. congruence.
+  - apply build_fault_cases in FB as [[F1 ->]|(F1 & F2 & ->)]; rewrite ?F1, ?F2 in EX; congruence.
   - injection EX as <- <-. contradiction.
 Qed.
 
-Lemma build_fail_result e :
-  fault e FBuild = true ->
-  forall ss s, check s ss = true -> hist e s ->
+Lemma build_fail_result e k :
+  build_fault e = Some k ->
+  forall ss s, check s ss = true ->
   forall evs o d, exec_list e ss = (evs, o) -> In (RunBuild d) evs ->
-                  o = Some (Raised CalledProcessError).
+                  o = Some (Raised k).
 Proof.
   intro FB.
-  apply (check_ind (fun s ss => hist e s -> forall evs o d, exec_list e ss = (evs, o) ->
-                      In (RunBuild d) evs -> o = Some (Raised CalledProcessError))).
-  - intros s v _ _ evs o d E I. cbn in E. injection E as <- <-. contradiction.
-  - intros s x s' r OK _ _ IH Hh evs o d E I. rewrite exec_cons in E.
+  apply (check_ind (fun s ss => forall evs o d, exec_list e ss = (evs, o) ->
+                      In (RunBuild d) evs -> o = Some (Raised k))).
+  - intros s v _ evs o d E I. cbn in E. injection E as <- <-. contradiction.
+  - intros s x s' r OK _ _ IH evs o d E I. rewrite exec_cons in E.
     destruct (exec_step e x) as [ev0 [res|]] eqn:EX.
     + injection E as <- <-. eapply step_build_fail_result; eauto.
     + destruct (exec_list e r) as [ev1 o1] eqn:E1. injection E as <- <-.
       apply in_app_or in I as [I|I].
-      * pose proof (step_build_fail_result _ _ _ _ _ _ _ OK Hh FB EX I). discriminate.
-      * eapply IH; eauto. eapply hist_step; eauto.
+      * pose proof (step_build_fail_result _ _ _ _ _ _ _ _ OK FB EX I). discriminate.
+      * eapply IH; eauto.
 Qed.
 
 Lemma step_nofault e s x s' :
@@ -267,7 +294,7 @@ Proof.
   intros OK R NF V HP.
   destruct x; inv_ok OK; cbn; rewrite ?NF, ?V; cbn; try reflexivity; try discriminate R.
   - destruct (upload e) eqn:U; cbn; [rewrite (HP eq_refl)|]; reflexivity.
-  - destruct (upload e) eqn:U; cbn; [rewrite (HP eq_refl)|]; reflexivity.
+  - destruct (upload e); reflexivity.
 Qed.
 
 Lemma step_built_stays e s x s' ev :
@@ -319,7 +346,7 @@ Proof.
                     | eexists (_ :: _ :: _ :: a), c; split; [reflexivity|];
                       intros ev [<-|[<-|[<-|I]]]; try reflexivity; auto ]).
     (* compile_upload: this is the step that runs both *)
-    inv_ok OK. cbn in EX. rewrite U in EX. cbn in EX. rewrite Pp in EX. cbn in EX.
+    inv_ok OK. cbn in EX. rewrite U in EX. cbn in EX.
     rewrite !NF in EX. injection EX as <-.
     exists [], ev1. split; [reflexivity|]. cbn. intros ev I.
     eapply (built_no_tool e r); eauto. rewrite E1. exact I.
@@ -468,9 +495,14 @@ Ltac os_solve e :=
   | match goal with |- outcome_shape _ [?a; ?b; ?c] _ =>
       apply (OS_fault e [a; b] c); [ff_solve | cbn; repeat match goal with H : ?x = _ |- context [?x] => rewrite H end; reflexivity] end ].
 
-Lemma step_outcome e x : outcome_shape e (fst (exec_step e x)) (snd (exec_step e x)).
+Definition step_wraps (x : step) : bool :=
+  match x with SEnsurePio _ h => handlers_wrap h | _ => true end.
+
+Lemma step_outcome e x :
+  step_wraps x = true -> outcome_shape e (fst (exec_step e x)) (snd (exec_step e x)).
 Proof.
-  destruct x; cbn;
+  intro W. destruct x; cbn in W; cbn;
+    try rewrite (wrap_kind _ (pio_how e) W);
     repeat match goal with
     | |- context [if ?c then _ else _] => destruct c eqn:?; cbn
     end; os_solve e.
@@ -479,10 +511,13 @@ Qed.
 Lemma fault_free_app e a b : fault_free e a -> fault_free e b -> fault_free e (a ++ b).
 Proof. intros A B ev I. apply in_app_or in I as [I|I]; auto. Qed.
 
-Lemma list_outcome e ss : outcome_shape e (fst (exec_list e ss)) (snd (exec_list e ss)).
+Lemma list_outcome e ss :
+  wraps_all ss = true -> outcome_shape e (fst (exec_list e ss)) (snd (exec_list e ss)).
 Proof.
-  induction ss as [|x r IH]; [apply OS_clean; intros ev []|].
-  rewrite exec_cons. pose proof (step_outcome e x) as S.
+  induction ss as [|x r IH]; intro W; [apply OS_clean; intros ev []|].
+  unfold wraps_all in W. cbn [forallb] in W. apply andb_true_iff in W as [Wx Wr].
+  specialize (IH Wr).
+  rewrite exec_cons. pose proof (step_outcome e x Wx) as S.
   destruct (exec_step e x) as [ev0 [res|]]; cbn [fst snd] in *; [exact S|].
   destruct (exec_list e r) as [ev1 o1]; cbn [fst snd] in *.
   assert (fault_free e ev0) as F0.
@@ -490,6 +525,15 @@ Proof.
   inversion IH; subst.
   - apply OS_clean. apply fault_free_app; assumption.
   - rewrite app_assoc. apply OS_fault; [apply fault_free_app; assumption|assumption].
+Qed.
+
+(* well-formed shapes wrap *)
+Lemma check_wraps : forall ss s, check s ss = true -> wraps_all ss = true.
+Proof.
+  apply (check_ind (fun s ss => wraps_all ss = true)).
+  - intros s v _. reflexivity.
+  - intros s x s' r OK _ _ IH. unfold wraps_all. cbn [forallb]. apply andb_true_iff. split; [|exact IH].
+    destruct x; try reflexivity. inv_ok OK. assumption.
 Qed.
 
 Lemma snoc_split {A} (pre : list A) : forall last pre' x post,
@@ -506,11 +550,12 @@ Qed.
 
 (* for ANY statement list *)
 Lemma failure_propagates e ss evs res pre ev post k :
+  wraps_all ss = true ->
   target_run e ss = (evs, res) -> evs = pre ++ ev :: post -> ev_fault e ev = Some k ->
   post = [] /\ res = Raised k.
 Proof.
-  intros R E F. apply run_exec in R as (o & EX & ->).
-  pose proof (list_outcome e ss) as S. rewrite EX in S. cbn [fst snd] in S.
+  intros W R E F. apply run_exec in R as (o & EX & ->).
+  pose proof (list_outcome e ss W) as S. rewrite EX in S. cbn [fst snd] in S.
   inversion S as [evs' o' FF | pre0 last k0 FF FL]; subst.
   - rewrite (FF ev) in F; [discriminate|]. apply in_or_app. right. left. reflexivity.
   - match goal with H : _ ++ [_] = _ ++ _ :: _ |- _ => apply snoc_split in H as [[-> ->]|I] end.
@@ -533,7 +578,9 @@ Proof.
     first [ exists []; eexists; split; [reflexivity|]
           | eexists [_]; eexists; split; [reflexivity|]
           | eexists [_; _]; eexists; split; [reflexivity|] ];
-    cbn; repeat match goal with H : ?a = _ |- context [?a] => rewrite H end; reflexivity.
+    cbn; repeat match goal with H : ?a = _ |- context [?a] => rewrite H end;
+    try match goal with W : handlers_wrap ?h = true |- _ => rewrite (wrap_kind h (pio_how e) W) end;
+    reflexivity.
 Qed.
 
 Lemma raised_has_cause e :
@@ -561,14 +608,15 @@ Lemma raise_cause e ss evs k :
   (exists pre last, evs = pre ++ [last] /\ ev_fault e last = Some k).
 Proof.
   intros OK R. destruct (validf e VPlatform VBoard) eqn:V.
-  - right. destruct (shape_head _ OK) as (r & s2 & -> & C & ->).
+  - right. destruct (shape_head _ OK) as (h & r & s2 & -> & W & C & ->).
     apply run_exec in R as (o & EX & RES).
     destruct o as [[v|k'|]|]; try discriminate RES. injection RES as <-.
     rewrite exec_cons in EX. cbn [exec_step] in EX. rewrite V in EX.
-    destruct (exec_list e (SEnsurePio GIfUpload :: r)) as [ev1 o1] eqn:E1.
+    destruct (exec_list e (SEnsurePio GIfUpload h :: r)) as [ev1 o1] eqn:E1.
     cbn in EX. injection EX as Eevs Eo. subst evs o1.
-    refine (raised_has_cause e (SEnsurePio GIfUpload :: r) (set_validated st0) _ _ _ ev1 k E1).
-    + cbn. exact C.
+    refine (raised_has_cause e (SEnsurePio GIfUpload h :: r) (set_validated st0) _ _ _ ev1 k E1).
+    + cbn [check step_ok]. cbn [guard_eqb set_validated st0 k_validated k_pio andb negb].
+      rewrite W. cbn. exact C.
     + repeat split; cbn; auto; discriminate.
     + reflexivity.
   - left. rewrite (validate_first _ _ OK V) in R. injection R as <- <-. auto.
@@ -708,7 +756,41 @@ Qed.
 
 (* ------------------------------------------------ the defect of the pinned shape *)
 Definition env_of (valid up pi : bool) (flt : fpoint -> bool) : env :=
-  {| validf := fun _ _ => valid; upload := up; pio := pi; fault := flt |}.
+  {| validf := fun _ _ => valid; upload := up; pio := pi; pio_how := PNotFound; fault := flt |}.
+
+(* the same with the way the probe fails spelled out *)
+Definition env_how (valid up : bool) (how : pfail) (flt : fpoint -> bool) : env :=
+  {| validf := fun _ _ => valid; upload := up; pio := false; pio_how := how; fault := flt |}.
+
+(* ------------------------------------------ the narrowed except clauses do not wrap *)
+Lemma narrow_not_ok : shape_ok shape_narrow = false /\ handlers_wrap handlers_narrow = false.
+Proof. vm_compute. split; reflexivity. Qed.
+
+(* upload requested, a `pio` on PATH that cannot be executed: the raw OSError escapes,
+   although an absent pio and a pio exiting non-zero are still RuntimeError *)
+Lemma narrow_refuted :
+  exists e, validf e VPlatform VBoard = true /\ upload e = true /\ pio e = false /\
+    target_run e shape_narrow = ([RunPioVersion], Raised OSError) /\
+    target_run (env_how true true PNotFound (fun _ => false)) shape_narrow = ([RunPioVersion], Raised RuntimeError) /\
+    target_run (env_how true true PExit (fun _ => false)) shape_narrow = ([RunPioVersion], Raised RuntimeError).
+Proof. exists (env_how true true PPerm (fun _ => false)). repeat split. Qed.
+
+(* the wrapping predicate is exact: it holds iff every probe failure becomes RuntimeError *)
+Lemma handlers_wrap_iff h :
+  handlers_wrap h = true <-> forall f, ensure_kind h f = RuntimeError.
+Proof.
+  split; [intros W f; apply wrap_kind; exact W|].
+  intro H. unfold handlers_wrap. apply forallb_forall. intros f _. rewrite H. reflexivity.
+Qed.
+
+(* on a well-formed shape the exception of a failing probe does not depend on HOW it fails *)
+Lemma missing_pio_any_cause e ss :
+  shape_ok ss = true -> validf e VPlatform VBoard = true -> upload e = true -> pio e = false ->
+  forall how, target_run {| validf := validf e; upload := upload e; pio := false; pio_how := how; fault := fault e |} ss
+              = ([RunPioVersion], Raised RuntimeError).
+Proof.
+  intros OK V U Pp how. apply missing_pio_with_upload; auto.
+Qed.
 
 Lemma pinned_refuted :
   exists e e', same_but_pio e e' /\ upload e = false /\
@@ -734,16 +816,24 @@ Lemma upload_iff e ss evs res :
   (upload e = true -> pio e = true -> validf e VPlatform VBoard = true -> no_fault e ->
      exists a c, evs = a ++ RunBuild VTmp :: RunUpload VTmp :: c /\
                  (forall ev, In ev (a ++ c) -> is_tool_run ev = false)) /\
-  (fault e FBuild = true ->
+  (forall k, build_fault e = Some k ->
      (forall d, ~ In (RunUpload d) evs) /\
-     (forall d, In (RunBuild d) evs -> res = Raised CalledProcessError)).
+     (forall d, In (RunBuild d) evs -> res = Raised k)).
 Proof.
   intros OK R. split; [|split].
   - eapply tool_run_needs_upload; eauto.
   - intros U Pp V NF. apply run_exec in R as (o & EX & _).
     destruct (upload_runs_both e NF V U Pp _ _ OK eq_refl) as (a & c & E & T).
     rewrite EX in E. cbn in E. eauto.
-  - intro FB. apply run_exec in R as (o & EX & ->). split.
-    + intros d I. apply (build_fail_no_upload e ss d FB). rewrite EX. exact I.
-    + intros d I. rewrite (build_fail_result e FB _ _ OK (hist0 e) _ _ _ EX I). reflexivity.
+  - intros k FB. apply run_exec in R as (o & EX & ->). split.
+    + intros d I. apply (build_fail_no_upload_k e ss d k FB). rewrite EX. exact I.
+    + intros d I. rewrite (build_fail_result e k FB _ _ OK _ _ _ EX I). reflexivity.
+Qed.
+
+(* an upload that cannot be started / exits non-zero after a good build: its error is the result *)
+Lemma upload_fault_result e ss evs res pre d post k :
+  shape_ok ss = true -> target_run e ss = (evs, res) -> evs = pre ++ RunUpload d :: post ->
+  ev_fault e (RunUpload d) = Some k -> post = [] /\ res = Raised k.
+Proof.
+  intros OK R E F. eapply failure_propagates; eauto. eapply check_wraps; exact OK.
 Qed.
